@@ -318,6 +318,55 @@ theorem feedTrace_feedAllFrom (f : Framer M) : ∀ (cs : List Bytes) (ms : List 
         have hl : (o :: tr).getLast? = some ((o :: tr).getLast (by simp)) := List.getLast?_eq_some_getLast (by simp)
         simp [List.getLast?_cons_cons, hl]
 
+/-! ### Sends and other connections do not matter (in the model: by construction) -/
+
+theorem feedAllFrom_append (f : Framer M) : ∀ (a b : List Bytes) (o : Out M),
+    feedAllFrom f o (a ++ b) = feedAllFrom f (feedAllFrom f o a) b := by
+  intro a
+  induction a with
+  | nil => intro b o; rfl
+  | cons c a ih =>
+    intro b o
+    cases he : o.err with
+    | some e => rw [feedAllFrom_err f o e he, feedAllFrom_err f o e he, feedAllFrom_err f o e he]
+    | none => simp only [List.cons_append, feedAllFrom, he, ih]
+
+/-- operations on one connection: only the reads count, in order -/
+theorem runOps_eq (f : Framer M) : ∀ (ops : List Op) (o : Out M),
+    runOps f o ops = feedAllFrom f o (Op.recvs ops) := by
+  intro ops
+  induction ops with
+  | nil => intro o; rfl
+  | cons op ops ih =>
+    intro o
+    cases op with
+    | recv c =>
+      have : Op.recvs (Op.recv c :: ops) = [c] ++ Op.recvs ops := rfl
+      rw [this, feedAllFrom_append]
+      exact ih _
+    | send d => exact ih o
+
+/-- interleaved reads of several connections: connection `i` ends where its own reads,
+    in order, take it -/
+theorem runSched_eq (f : Framer M) : ∀ (sched : List (Nat × Bytes)) (st : Nat → Out M) (i : Nat),
+    runSched f st sched i = feedAllFrom f (st i) ((sched.filter (fun p => p.1 = i)).map (·.2)) := by
+  intro sched
+  induction sched with
+  | nil => intro st i; rfl
+  | cons p sched ih =>
+    intro st i
+    obtain ⟨j, c⟩ := p
+    simp only [runSched]
+    rw [ih]
+    by_cases h : j = i
+    · subst h
+      simp only [if_true, List.filter_cons, decide_true, List.map_cons]
+      have : (c :: List.map (·.2) (List.filter (fun p => p.1 = j) sched))
+          = [c] ++ List.map (·.2) (List.filter (fun p => p.1 = j) sched) := rfl
+      rw [this, feedAllFrom_append]
+    · have h' : ¬ i = j := fun e => h e.symm
+      simp [h, h']
+
 theorem feedTrace_feedAll (f : Framer M) (cs : List Bytes) :
     feedAll f cs = ⟨(feedTrace f [] cs).flatMap (·.msgs),
                     ((feedTrace f [] cs).getLast?.map (·.rest)).getD [],
